@@ -287,6 +287,44 @@ func c09CheckBuild(res *engine.Result, sec *ref.S35Section, events bool) {
 	res.Outcomes = append(res.Outcomes, engine.Hash64(ref.S35SectionBytes(sec)))
 }
 
+// ---- scenario "descriptor-component-counts" ---------------------------------------------------------------------
+
+type c09CompCase struct {
+	N int `json:"components"`
+}
+
+// a segmentation descriptor in component mode with n components (every n from 0 up to what a descriptor_length of
+// 255 allows) x duration present / absent x UPID none / 8 bytes x sub-segment fields: built through the API,
+// encoded, decoded, re-encoded (buffers that grow past their first allocation while later fields are written)
+func c09CheckComps(c c09CompCase) engine.Result {
+	var res engine.Result
+	for variant := 0; variant < 8; variant++ {
+		g := ref.S35Seg{EventID: 0x0A0B0C00 + uint32(c.N), Program: false, HasDuration: variant&1 != 0, Duration: 0x1234567890 & (1<<40 - 1), NotRestricted: variant&4 == 0, Web: true, Device: 1,
+			UPIDType: 0x00, TypeID: 0x34, SegNum: 2, SegsExpected: 5, HasSub: variant&4 != 0, SubNum: 1, SubExpected: 3}
+		if variant&2 != 0 {
+			g.UPIDType, g.UPID = 0x08, []byte{1, 2, 3, 4, 5, 6, 7, 8}
+		}
+		for i := 0; i < c.N; i++ {
+			g.Comps = append(g.Comps, ref.S35Offset{Tag: uint8(0x10 + i), Offset: uint64(i)<<25 | 0x100000001&(1<<33-1)})
+		}
+		d := c09SegD(g)
+		if len(ref.S35DescBytes(&d))-2 > 255 {
+			continue
+		}
+		sec := ref.S35Canonical()
+		sec.CmdType, sec.Time, sec.PTSAdj = ref.S35CmdTime, ref.S35Time{Specified: true, PTS: 900000}, 3
+		sec.Descs = []ref.S35Desc{d, c09SegD(ref.S35Seg{EventID: 77, Program: true, NotRestricted: true, TypeID: 0x35, SegNum: 1, SegsExpected: 1})}
+		res.Nontrivial++
+		c09CheckBuild(&res, &sec, false)
+		c09CheckReencode(&res, &sec, false)
+		if len(res.Fail) > 6 {
+			return res
+		}
+	}
+	res.Outcome(c.N)
+	return res
+}
+
 // ---- scenario "type-x-sub-segments": every segmentation_type_id with the sub-segment flag set -------------------
 
 type c09TypeSubCase struct {
@@ -1038,7 +1076,10 @@ type c09LongCase struct {
 
 func c09CheckLong(c c09LongCase) engine.Result {
 	var res engine.Result
-	for l := 0; l <= 238; l++ {
+	for l := 0; l <= 255; l++ {
+		if probe := c09SegD(ref.S35Seg{Program: true, NotRestricted: true, UPIDType: 0x0F, UPID: make([]byte, l), TypeID: 0x30}); len(ref.S35DescBytes(&probe))-2 > 255 {
+			break // descriptor_length is one byte: upids up to the length that makes it 255 (240 here)
+		}
 		sec := ref.S35Canonical()
 		sec.CmdType, sec.Time, sec.PTSAdj = ref.S35CmdTime, ref.S35Time{Specified: true, PTS: 90000}, 1
 		upid := make([]byte, l)
@@ -1149,6 +1190,16 @@ func init() {
 				},
 				Batch: 1,
 			},
+			&engine.Enum[c09CompCase]{
+				Name: "descriptor-component-counts",
+				Rule: "a segmentation descriptor in component mode with EVERY component count 0..39 (what descriptor_length 255 allows) x duration present/absent x UPID none / 8 bytes x sub-segment fields and delivery restrictions, followed by a second descriptor: built through Create* and setters in two call orders, encoded (== canonical reference), decoded, re-encoded",
+				Gen: func(r *engine.Run, emit func(c09CompCase)) {
+					for n := 0; n <= 39; n++ {
+						emit(c09CompCase{n})
+					}
+				},
+				Check: c09CheckComps, Batch: 2,
+			},
 			&engine.Enum[c09TypeSubCase]{
 				Name: "type-x-sub-segments",
 				Rule: "all 256 segmentation_type_id values x sub-segment flag set (after SetTypeID) / clear x segment numbers {1/3, 0/0}: a time_signal with one descriptor built through Create* and setters in two call orders; the encoding must be the canonical section (sub_segment_num / sub_segments_expected present exactly for the types defined to carry them, 0x34 and 0x36, when the flag is set), decode back to the same values, re-encode to the same bytes",
@@ -1253,7 +1304,7 @@ func init() {
 			},
 			&engine.Enum[c09LongCase]{
 				Name: "long-sections",
-				Rule: "time_signal with n = 1..16 segmentation descriptors each holding a URN upid of every length 0..238 (section_length 39 .. 4093, crossing 1023/1024, 2047/2048): built through the API and decoded + re-encoded, oracles of build-fields / reencode-fields; non-trivial = sections with section_length >= 1024",
+				Rule: "time_signal with n = 1..16 segmentation descriptors each holding a URN upid of every length 0..240 (descriptor_length up to its maximum 255; section_length 39 .. 4093, crossing 1023/1024, 2047/2048): built through the API and decoded + re-encoded, oracles of build-fields / reencode-fields; non-trivial = sections with section_length >= 1024",
 				Gen: func(r *engine.Run, emit func(c09LongCase)) {
 					for n := 1; n <= 16; n++ {
 						emit(c09LongCase{Descriptors: n})
